@@ -14,7 +14,7 @@ package lib
 //      model (`statsepoch|…`).
 //  (B) c05StatsSessions: real Proxy() calls — client = net.Pipe, covert = a loopback TCP server — started,
 //      used and ended in every order with PrintAndReset / Reset of the process-wide ProxyStats in between:
-//      every history of <= 3 / <= 5 events over start (with / without a first byte) · transfer · end by the
+//      every history of <= 3 / <= 4 events over start (with / without a first byte) · transfer · end by the
 //      client (oldest session) · end by the covert (newest session) · PrintAndReset · Reset with up to three
 //      sessions open, plus random ones; model line `sessions|…`.
 //
@@ -476,7 +476,7 @@ func c05StatsSessions(out *vlib.Out) {
 		panic(err)
 	}
 	defer ln.Close()
-	maxLen := vlib.Budget(3, 5)
+	maxLen := vlib.Budget(3, 4)
 	bad := 0 // histories on which an oracle failed: each costs up to 10 s of waiting, three are enough
 	// corpus: the shapes worth naming
 	for _, h := range [][]string{
@@ -509,7 +509,7 @@ func c05StatsSessions(out *vlib.Out) {
 	}
 	rec(nil, 0)
 	r := vlib.NewRand("C05sessions")
-	for i, n := 0, vlib.Budget(60, 1500); i < n && bad <= 2; i++ {
+	for i, n := 0, vlib.Budget(60, 600); i < n && bad <= 2; i++ {
 		var letters []string
 		open := 0
 		for j, k := 0, r.Range(4, 14); j < k; j++ {
